@@ -112,3 +112,72 @@ def check_time_sites(rep, prog, rid, only=None):
                   where='%s:%d' % (fn.module.relpath, node.lineno),
                   expected='calendar.timegm(x.utctimetuple())', found=text)
     return n
+
+
+# ------------------------------------------------------------------------------------------------ readers (seconds -> datetime)
+CLOCKS = ('datetime.now', 'datetime.utcnow', 'datetime.today', 'datetime.datetime.now', 'datetime.datetime.utcnow', 'time.time',
+          'time.time_ns', 'time.gmtime', 'time.localtime', 'date.today', 'time.monotonic')
+
+
+def is_utc_datetime_of(text, secs):
+    """`text` is the aware UTC datetime of the epoch seconds rendered as `secs` (the idioms agree on 0 .. 2**32-1)."""
+    t = (text or '').replace(' ', '')
+    s = secs.replace(' ', '')
+    return t in ('datetime.fromtimestamp(%s,timezone.utc)' % s, 'datetime.fromtimestamp(%s,tz=timezone.utc)' % s,
+                 'datetime.utcfromtimestamp(%s).replace(tzinfo=timezone.utc)' % s,
+                 'datetime.datetime.fromtimestamp(%s,datetime.timezone.utc)' % s,
+                 'datetime.datetime.fromtimestamp(%s,tz=datetime.timezone.utc)' % s)
+
+
+def is_big_endian_int_of(text, octets):
+    t = (text or '').replace(' ', '')
+    o = octets.replace(' ', '')
+    return bool(re.match(r"^(?:[A-Za-z_][\w.]*\.)?bytes_to_int\(%s(?:,'big')?\)$" % re.escape(o), t)) or \
+        t in ("int.from_bytes(%s,'big')" % o, "int.from_bytes(%s,byteorder='big')" % o)
+
+
+def check_time_readers(rep, prog, rid, module, clsname, prop):
+    """The setters through which a parsed time field reaches the object (`<cls>.<prop>`: octets -> seconds -> datetime) are the
+    identity on the value received and read no clock: a creation time is never replaced, clamped or defaulted on import (the
+    fingerprint hashes it).  Decided per registered setter on interpreter store / call values, on every path."""
+    from .interp import Interp, Scenario, render
+    ci = prog.cls(module, clsname)
+    p = ci.find_prop(prop)
+    if p is None or not p.setter_order:
+        raise AnalysisError('%s.%s sdproperty vanished' % (clsname, prop))
+    seen = set()
+    n = 0
+    for tname, fi in p.setter_order:
+        if id(fi.node) in seen or len(fi.params) < 2:
+            continue
+        seen.add(id(fi.node))
+        rep.saw(fn=fi)
+        me, val = fi.params[0], fi.params[1]
+        kinds = set((t or '').split('.')[-1] for t, f in p.setter_order if f.node is fi.node)
+        outs = Interp(prog, Scenario(inline=lambda f: False)).run(fi)
+        clocks = sorted(set(c[0] for s in outs for c in s.calls if c[0] in CLOCKS or c[0].split('.')[-1] in ('utcnow',)))
+        n += 1
+        rep.check(not clocks, rid, fi.qualname, 'clock reads on the way of a parsed %s: %s' % (prop, clocks or 'none'),
+                  'a time field read from a packet must not depend on the clock of the importing host', where=fi.where, found=clocks)
+        for s in outs:
+            if s.raised:
+                continue
+            targets = [(pth, v) for pth, v, l, _ in s.stores if pth.startswith(me + '.') and pth.count('.') == 1]
+            last = targets[-1][1] if targets else None
+            if kinds & {'datetime'}:
+                ok = last == val
+                want = val
+            elif kinds & {'int'}:
+                ok = last is not None and is_utc_datetime_of(last, val)
+                want = 'datetime.fromtimestamp(%s, timezone.utc)' % val
+            elif kinds & {'bytes', 'bytearray'}:
+                ok = last is not None and (is_big_endian_int_of(last, val) or
+                                           any(is_utc_datetime_of(last, '%s.bytes_to_int(%s)' % (me, val)) for _ in (0,)))
+                want = '%s.bytes_to_int(%s)' % (me, val)
+            else:
+                continue
+            n += 1
+            rep.check(ok, rid, fi.qualname, '%s setter stores %s' % ('/'.join(sorted(kinds)), last),
+                      'the %s received is stored as it is (octets -> big-endian seconds -> UTC datetime), on every path' % prop,
+                      where=fi.where, expected=want, found=last)
+    return n
